@@ -23,8 +23,8 @@ def build(tier, seed, exclude):
     for typed in (True, False):
         for use_async in (False, True):
             nm = f"h_late_{'typed' if typed else 'any'}_{'async' if use_async else 'sync'}"
-            g.cond(nm, "i: int, j: int, c0: int, c1: int, c2: int", ["-1 <= i < 3 and 0 <= j < 3 and 0 <= c0 < 4 and 0 <= c1 < 4 and 0 <= c2 < 4"], f"""
-                err = AP.c18(T.real(i), T.real(j), {typed}, {use_async}, [T.real(c0), T.real(c1), T.real(c2)])
+            g.cond(nm, "i: int, j: int, sd: int", ["-1 <= i < 3 and 0 <= j < 3 and 0 <= sd < 64"], f"""
+                err = AP.c18(T.real(i), T.real(j), {typed}, {use_async}, AP.S.decode(T.real(sd), 3, 4))
                 return T.fail(err) if err else True
             """, timeout=to)
     # two late assignments (a cycle plus a node hanging below it)
@@ -34,9 +34,9 @@ def build(tier, seed, exclude):
             return T.fail(err) if err else True
         """, timeout=to)
     # failing / stalled workflows still end (async loop): every failing subset, symbolic schedule
-    params = ", ".join(f"c{i}: int" for i in range(NS)) + ", bits: int, k: int"
-    pre = [" and ".join(f"0 <= c{i} < 4" for i in range(NS)), "0 <= bits < 4 and 0 <= k <= 2"]
-    ch = "[" + ", ".join(f"T.real(c{i})" for i in range(NS)) + "]"
+    params = "sd: int, bits: int, k: int"
+    pre = [f"0 <= sd < {4 ** NS}", "0 <= bits < 4 and 0 <= k <= 2"]
+    ch = f"AP.S.decode(T.real(sd), {NS}, 4)"
     for shape in ("indep", "forkjoin"):
         g.cond(f"h_ends_{shape}", params, pre, f"""
             fails = {{n for b, n in enumerate(AP.FAILABLE[{shape!r}]) if (T.real(bits) >> b) & 1}}
